@@ -161,6 +161,70 @@ def sweep_items(tier, seed):
     return items
 
 
+GCAT = json.load(open(os.path.join(os.path.dirname(os.path.abspath(__file__)), "c20_catalogue_grid.json")))
+
+
+def interp_grid(p):
+    e = GCAT[p["entry"] % len(GCAT)]
+    cls = e["cls"]
+    nx, ny = 1 + p["nx"] % 6, 1 + p["ny"] % 5
+    a, b = p["a"], p["b"]
+    where = "%s.%s(%s) %dx%d" % (cls, e["name"], e["arg"], nx, ny)
+    labels = set([cls, e["kind"]])
+    try:
+        subj, vals = grid_build(cls, nx, ny, a, b)
+        arg, av = (None, None) if e["arg"] == "none" else grid_arg(e["arg"], cls, nx, ny, a + 1, b + 2)
+        r = getattr(subj, e["name"])(*([] if e["arg"] == "none" else [arg]))
+    except Exception as ex:
+        raise Violation("catalogue/entry-raises", "%s raised %r (it did not on the unchanged tree)" % (where, ex))
+    if e["kind"] == "array":
+        rcls = type(r).__name__
+        if rcls != e["result_class"] or grid_shape(rcls, r) != (nx, ny):
+            raise Violation("grid/result-shape", "%s returned %s of shape %r" % (where, rcls, grid_shape(rcls, r) if rcls in GRID else None))
+        got = grid_canon(rcls, r)
+        # the operands of a value-returning operator must be untouched
+        after = grid_canon(cls, subj)
+        inplace_op = e["name"].startswith("__i") and e["name"] not in ("__invert__",)
+        if inplace_op:
+            labels.add("inplace_operator")
+        for ij in vals:
+            if not inplace_op and after[ij] != repr(vals[ij]):
+                raise Violation("grid/operand-modified", "%s modified its left operand at %r" % (where, ij))
+    else:
+        got = grid_canon(cls, subj)
+    if e["scalar_oracle"] in ("exact", "approx"):
+        for ij in vals:
+            try:
+                exp = grid_expected(e, vals, arg, av, ij)
+            except Exception as ex:
+                raise Violation("scalar/binding-raises", "%s: scalar form raised %r at %r" % (where, ex, ij))
+            ok = got[ij] == exp if e["scalar_oracle"] == "exact" else approx_equal(got[ij], exp)
+            if not ok:
+                raise Violation("grid/element-differs", "%s: element %r is %s, the scalar operation gives %s" % (where, ij, got[ij], exp))
+        labels.add("scalar_oracle_" + e["scalar_oracle"])
+    # mismatched shapes must raise
+    if e["arg"] == "same" and p.get("mismatch"):
+        subj2, _v2 = grid_build(cls, nx, ny, a, b)
+        other, _ov = grid_build(cls, nx + (1 if p["mismatch"] % 2 else 0), ny + (0 if p["mismatch"] % 2 else 1), a, b, signed=False)
+        try:
+            getattr(subj2, e["name"])(other)
+        except Exception:
+            labels.add("mismatch_raises")
+        else:
+            raise Violation("mismatch/no-exception", "%s with an operand of another shape did not raise" % where)
+    return dict(nontrivial=nx * ny > 1, labels=sorted(labels), desc=where)
+
+
+def grid_items(tier, seed):
+    items = []
+    reps = 4 if tier == "thorough" else 1
+    for idx in range(len(GCAT)):
+        for r in range(reps):
+            s = (idx * 17 + r * 29 + seed) % 997
+            items.append(dict(entry=idx, nx=s % 6, ny=(s // 6) % 5, a=(s + 1) % 17, b=(s * 3) % 23, mismatch=1 + s % 2))
+    return items
+
+
 GROUPS = [
     Group("catalogue_sweep", None, interp, 0, 0,
           "complete sweep: every one of the %d catalogued vectorised entry points (array methods/operators x argument-kind combinations array/scalar/masked, module functions, scalar-object methods taking arrays) x lengths {2, 257} (thorough: {0,2,199,201,257,1000}) x generated schedules; non-trivial = length > 200, dispatched to the pool, >= 2 non-empty chunks executed out of order" % len(CAT),
@@ -168,6 +232,9 @@ GROUPS = [
     Group("schedules", PROG, interp, 300, 20000,
           "random (entry, length in {0,1,2,199,200,201,202,257,1000}, data seeds, masked self, schedule: up to 8 chunks incl. empty ones, permutation, worker ids, serial/concurrent); non-trivial as above",
           required_labels=["dispatched"]),
+    Group("grid_ops", None, interp_grid, 0, 0,
+          "complete sweep of the %d catalogued element-wise operators of FixedArray2D (Int/Float/Double/Color4f/Color4c) and FixedMatrix (Int/Float/Double) x argument kinds (none / same-shape container / scalar) on generated shapes up to 6x5: every element compared with the scalar operation (C semantics for numbers, the scalar binding for colours), operands untouched, other-shape operands must raise; non-trivial = more than one element" % len(GCAT),
+          required_labels=["scalar_oracle_exact", "mismatch_raises", "inplace_operator", "array"], items=grid_items),
 ]
 
 if __name__ == "__main__":
